@@ -12,12 +12,12 @@ DECIDES = ('G1: every sub-expression the generator evaluates is disposed of and 
            'error label of DefNodeWrapper.generate_argument_parsing_code releases the entry of every star argument that exists, on every path (helper methods inlined), and '
            'generate_stararg_init_code releases an entry it has marked as owned (put_var_gotref) before every later emitted `return`.')
 NOT_DECIDED = ('reference balance inside the C helpers and on error paths of the generated C other than the argument-unpacking exits (needs the running refnanny); ordering of emitted error checks relative to decrefs; '
-               'null-safety of a release whose acquisition was conditional (generate_stararg_init_code decref_clears a **kwargs entry that stays NULL when it is unused: only reachable when the *args slice allocation fails).')
+               'null-safety of conditional acquisitions other than the argument entries covered by C35-ARGNULL.')
 
 
 def run(ctx):
-    # sC35.rule_args_nullsafe(ctx)   # pending finding: generate_stararg_init_code decref_clears the NULL entry of an unused **kwargs (Py_DECREF(NULL) when the *args slice fails)
-    return [gen2.rule_G1(ctx), gen2.rule_G2(ctx), gen2.rule_G5(ctx), gen2.rule_G7(ctx), sC35.rule_args(ctx)]
+    # sC35.rule_args_nullsafe found generate_stararg_init_code decref_clear-ing the NULL entry of an unused **kwargs (Py_DECREF(NULL) when the *args slice fails); repaired in /repo (63b53eadb)
+    return [gen2.rule_G1(ctx), gen2.rule_G2(ctx), gen2.rule_G5(ctx), gen2.rule_G7(ctx), sC35.rule_args(ctx), sC35.rule_args_nullsafe(ctx)]
 
 
 MUTATIONS = [
